@@ -523,6 +523,10 @@ sub0_ctx_unsubscribe(sub0_ctx *ctx, const void *buf, size_t sz)
 			nni_msg_free(msg);
 		}
 	}
+	// If that emptied the socket's own queue, it is no longer readable.
+	if ((ctx == &sock->master) && nni_lmq_empty(&ctx->lmq)) {
+		nni_pollable_clear(&sock->readable);
+	}
 	nni_mtx_unlock(&sock->lk);
 
 	nni_free(topic->buf, topic->len);
